@@ -892,6 +892,21 @@ func c9hasFloat(t c9tree) bool {
 	return false
 }
 
+// c9fracOrExp: some number of the text is written with a fraction or an exponent.
+func c9fracOrExp(text []byte) bool {
+	dec := json.NewDecoder(strings.NewReader(string(text)))
+	dec.UseNumber()
+	for {
+		tok, err := dec.Token()
+		if err != nil {
+			return false
+		}
+		if n, ok := tok.(json.Number); ok && strings.ContainsAny(string(n), ".eE") {
+			return true
+		}
+	}
+}
+
 var c9jsonTexts = []string{
 	`null`, ` true `, "\t[ ]\n", `{ }`, `[1, 2 ,3]`, `{"a" : 1 , "b":[ ] }`, `"éA€\/\b\f\n\r\t"`, `" "`,
 	`-0`, `0`, `-12`, `01`, `1.5`, `1e3`, `[1,]`, `{"a":1,}`, `"unterminated`, `"bad \x escape"`, "\"ctrl\x01\"", `[1] x`, `tru`, `nul`,
@@ -933,7 +948,7 @@ func c9jsonSuite(r *vk.Rand, n int, out *vk.Out) {
 		c.ParseOK = err == nil
 		if err == nil {
 			c.Parsed = c9toJB(reflect.ValueOf(&x).Elem())
-			c.Float = c9hasFloat(c.Parsed)
+			c.Float = c9hasFloat(c.Parsed) || c9fracOrExp(text)
 		}
 		out.Put(c)
 	}
